@@ -62,6 +62,24 @@ def run(ctx):
                     loops.append((t, lb))
         loops.sort(key=lambda x: -len(x[1]))
         if not loops:
+            # the same enumeration written as an adaptor chain: `names.into_iter().filter_map(|v| ..).collect()` -- the
+            # collect whose value is returned; its receiver, with the adaptors stripped, is what is enumerated
+            import panic as _panic
+
+            base_nm = None
+            for t in b.calls():
+                if t.callee and t.callee.short.split("::")[-1] in ("collect", "from_iter") and ("L", t.dest.local) in ret and t.args:
+                    d = _panic.norm(fl.describe(t.args[0], depth=12))
+                    for _ in range(8):
+                        if isinstance(d, tuple) and d[0] == "call" and d[1].split("::")[-1] in ("filter_map", "map", "filter", "flat_map", "inspect", "enumerate", "cloned", "copied", "into_iter", "iter") and d[2]:
+                            d = d[2][0]
+                        else:
+                            break
+                    if isinstance(d, tuple) and d[0] == "call":
+                        base_nm = d[1].split("::")[-1]
+            if base_nm is not None:
+                ctx.require(base_nm in ("get_all_node_names", "get_all_nodes"), "R-C10-2", "outer-loop|" + b.short, "%s starts a search from every node of the node store" % sfx.split("::")[-1], "%s enumerates its start nodes from %s: a node without an entry there (e.g. an isolated node) ends up in no component" % (sfx.split("::")[-1], base_nm), loc_str(b.span))
+                continue
             ctx.violation("R-C10-2", "outer-loop|" + b.short, "%s has no loop around the pushes into its result" % sfx.split("::")[-1], loc_str(b.span))
             continue
         t, lb = loops[0]
@@ -69,6 +87,10 @@ def run(ctx):
         cal = {b.blocks[n_[1]].term.callee.short.split("::")[-1] for n_ in sl if n_[0] == "CALL" and b.blocks[n_[1]].term.callee}
         ok = bool(cal & {"get_all_node_names", "get_all_nodes"}) and not (cal & {"get_successors_map", "get_predecessors_map", "keys", "get_all_edges"})
         ctx.require(ok, "R-C10-2", "outer-loop|" + b.short, "%s starts a search from every node of the node store" % sfx.split("::")[-1], "%s enumerates its start nodes from %s: a node without an entry there (e.g. an isolated node) ends up in no component" % (sfx.split("::")[-1], sorted(cal)), loc_str(t.span))
+    # ------------------------------------------------------------------ R-C10-6
+    from graphrules import adjacency_entry_targets_agree
+
+    adjacency_entry_targets_agree(ctx, prog, flows, "R-C10-6", "a node then lists a wrong neighbour (itself) in the traversal list the searches walk, loses the real one, and a component is split or reported twice")
     # ------------------------------------------------------------------ R-C10-5
     from graphrules import enumerate_counters_as_positions
 
